@@ -29,7 +29,88 @@ func checkC20(c *Check) {
 	c20Loops(c)
 	c20Post(c)
 	c20Lines(c)
+	c20ImportBudget(c)
 	_ = p
+}
+
+// ---- R3b: the depth guard bounds how DEEP import expansion goes, not how much it produces: a snippet that imports
+// itself twice (`(a) { import a; import a }`) doubles the number of import directives on each of the 255 permitted
+// passes – a 30-byte input grows the tree until memory runs out. Termination needs a bound on the total number of
+// expansions: every expansion of an import directive is counted against a budget that is shared by the whole parse
+// (nested files included) and tested before the imported nodes are spliced in.
+func c20ImportBudget(c *Check) {
+	c.Rule("R3b", "import expansion is bounded in total, not only in depth: before an import directive is resolved a counter reachable from the parse context is changed and compared with a bound, and the same counter is handed to the parser of an imported file", 1)
+	r := c.need("R3b", cfgparserRel, "parseContext", "expandImports")
+	if r == nil {
+		return
+	}
+	info := r.Info
+	resolve := r.Calls(calling("~/" + cfgparserRel + ".parseContext.resolveImport"))
+	msg := ""
+	if len(resolve) == 0 {
+		msg = "undecided: expandImports does not resolve imports"
+	} else {
+		// a counter: a field of the context (possibly behind a pointer) that is modified (++/--/+=/-=/assignment) at a
+		// point every path to resolveImport passes, and compared with something on such a path
+		var recv types.Object
+		if rl := r.FI.Decl.Recv; rl != nil && len(rl.List) == 1 && len(rl.List[0].Names) == 1 {
+			recv = info.Defs[rl.List[0].Names[0]]
+		}
+		counters := map[*types.Var][]Pt{}
+		for _, pt := range r.F.Points() {
+			n := pt.Node()
+			if n == nil {
+				continue
+			}
+			var targets []ast.Expr
+			switch s := n.(type) {
+			case *ast.IncDecStmt:
+				targets = append(targets, s.X)
+			case *ast.AssignStmt:
+				if s.Tok != token.DEFINE {
+					targets = append(targets, s.Lhs...)
+				}
+			}
+			for _, t := range targets {
+				e := ast.Unparen(t)
+				if st, ok := e.(*ast.StarExpr); ok {
+					e = ast.Unparen(st.X)
+				}
+				if sel, ok := e.(*ast.SelectorExpr); ok && recv != nil && objOf(info, sel.X) == recv {
+					if fv := fieldOf(info, sel); fv != nil {
+						counters[fv] = append(counters[fv], pt)
+					}
+				}
+			}
+		}
+		ok := false
+		for fv, pts := range counters {
+			if okMP, _ := r.MustPass(r.Entry(), true, isPt(resolve), isPt(pts)); !okMP {
+				continue
+			}
+			// compared on the way as well
+			cmp := false
+			for _, b := range r.F.G.Blocks {
+				cond, isCase := r.F.Cond(b)
+				if cond == nil || isCase {
+					continue
+				}
+				ast.Inspect(cond, func(x ast.Node) bool {
+					if sel, isSel := x.(*ast.SelectorExpr); isSel && fieldOf(info, sel) == fv {
+						cmp = true
+					}
+					return true
+				})
+			}
+			if cmp {
+				ok = true
+			}
+		}
+		if !ok {
+			msg = "the expansion of an import directive is not counted against any budget of the parse: only the number of passes is limited (255), while a snippet that imports itself twice doubles the directives on every pass – `(a) {\\n import a\\n import a\\n}\\n import a` does not come back (the tree grows until memory is exhausted)"
+		}
+	}
+	c.Hold("R3b", "expandImports:total-budget", r.FI.Decl.Pos(), msg == "", msg)
 }
 
 // ---- R6: every consumed line feed is counted (the dispenser's same-line / next-line decisions, hence the shape
